@@ -25,6 +25,7 @@ def comment_and_expat(tier, seed):
     alphabet = ['a', 'B', '"', "'", '<', '>', '&', '\n', '\t', ' ', 'é', '中', ']]>', '--']
     n = 200 if tier == 'quick' else 3000
     bad = 0
+    first = None
     for _ in range(n):
         def s():
             return ''.join(rnd.choice(alphabet) for _ in range(rnd.randint(0, 6)))
@@ -40,18 +41,30 @@ def comment_and_expat(tier, seed):
         p.CharacterDataHandler = buf.append
         try:
             p.Parse(w.get_encoded_xml(), True)
-        except expat.ExpatError:
+        except expat.ExpatError as e:
             bad += 1
+            first = first or {'attributes': attrs, 'text': text, 'xml': w.get_xml(), 'expat': str(e)}
             continue
         want = {k: v for k, v in attrs if v is not None}
         if len(seen) != 2 or seen[0][1] != want or seen[1][1] != want:
             bad += 1
+            first = first or {'attributes': attrs, 'text': text, 'xml': w.get_xml(), 'parsed_attributes': [x[1] for x in seen]}
         if text is not None and '\r' not in text and ''.join(buf).strip('\n ') != text.strip('\n '):
             bad += 1
+            first = first or {'attributes': attrs, 'text': text, 'xml': w.get_xml(), 'parsed_text': ''.join(buf)}
     out['bounded'].append({'what': 'meta-lemma "a balanced trace rendered per the proved serialisation spec parses back to that trace" '
                                    'validated with expat on random documents (spec validation, NOT counted as proved)',
                            'documents': n, 'mismatches': bad, 'seed': seed})
     if bad:
-        out['violations'].append({'text': 'expat round trip of writer output failed on %d random documents' % bad,
-                                  'replay': 'none', 'confirmed': True})
+        import json
+        import os
+        here = os.path.dirname(os.path.dirname(os.path.dirname(os.path.abspath(__file__))))
+        os.makedirs(os.path.join(here, 'replay', 'C20'), exist_ok=True)
+        path = os.path.join('replay', 'C20', 'expat_round_trip.json')
+        json.dump({'property': 'C20', 'obligation': 'expat round trip of the writer output (bounded spec validation)', 'input': first,
+                   'note': "w = XMLWriter(); with w.tagcontext('root', attributes): w.write_tag('leaf', attributes, text); "
+                           'expat must parse w.get_encoded_xml() back to the same attributes and text'},
+                  open(os.path.join(here, path), 'w'), indent=1)
+        out['violations'].append({'text': 'expat round trip of writer output failed on %d random documents (bounded spec validation)' % bad,
+                                  'replay': path, 'confirmed': True})
     return out
